@@ -87,6 +87,23 @@ def c23Step (line : String) : String :=
       (if C23.denotesOwnSocket servers dh dp tp then "own" else "other") ++ " " ++
       ",".intercalate ((C23.openTrace servers dh dp tp (ok == "1")).map c23Ev)
     | _, _, _, _ => "bad-op"
+  | "conn" :: dh :: dp :: tp :: steps =>
+    -- repeated attempts on one Server object: each step `ok~servers`
+    match hexOr dh, dp.toNat?, c23Tp tp with
+    | some dh, some dp, some tp =>
+      let parsed := steps.mapM fun st =>
+        match st.splitOn "~" with
+        | [ok, srv] => match c23Servers srv with
+          | some servers => if ok == "1" then some (servers, true) else if ok == "0" then some (servers, false) else none
+          | none => none
+        | _ => none
+      match parsed with
+      | some l =>
+        " ".intercalate ((C23.attempts none dh dp tp l).map fun (e, tr) =>
+          (match e with | none => "open" | some .destinationUnknown => "blocked" | some .dialError => "stale") ++
+          ";" ++ ",".intercalate (tr.map c23Ev))
+      | none => "bad-op"
+    | _, _, _ => "bad-op"
   | "run" :: ops =>
     match ops.mapM c23Op with
     | some ops => " ".intercalate ((C23.run [] ops).map c23ShowOut)
